@@ -1,0 +1,6 @@
+//go:build !verif
+// +build !verif
+
+package encoder
+
+func verifSlot(fast bool, index, typeptr uintptr, set *OpcodeSet) {}
